@@ -283,12 +283,12 @@ Section Tape.
   (** ** one iteration of the decoder thread's loop *)
   Variables psize land : nat -> nat.
 
-  Lemma q_frame_at_index_ok : forall (q : producer A) j,
+  Lemma q_frame_at_index_any : forall (ps ld : nat -> nat) (q : producer A) j,
     q_slice q = slice -> q_n q = N -> S18.inv audio (q_dec q) -> pl j = true ->
-    exists dec', q_frame_at_index A azero fuel audio psize land q (t_pos (tr_at j))
+    exists dec', q_frame_at_index A azero fuel audio ps ld q (t_pos (tr_at j))
                  = Ok (Some (rf_frame (prec (S j))), dec') /\ S18.inv audio dec'.
   Proof.
-    intros q j Hsl Hn Hinv Hpl. unfold q_frame_at_index. rewrite Hsl, Hn.
+    intros ps ld q j Hsl Hn Hinv Hpl. unfold q_frame_at_index. rewrite Hsl, Hn.
     pose proof (wf_at j) as (Hp0 & HpB & _). pose proof N_slice as HN. pose proof N_nonneg as HN0.
     assert (Hd : sub_chk (match slice with Some (_, e) => e | None => N end)
                          (match slice with Some (st, _) => st | None => 0 end) = Ok N).
@@ -315,11 +315,12 @@ Section Tape.
         f_equal. f_equal. f_equal. symmetry. now apply nth_error_nth.
       + destruct Hinv as [Hdp Hc].
         destruct (i <? D18.cur (q_dec q))%nat eqn:El.
-        * apply (S18.decode_loop_correct azero audio psize fuel); [split; [reflexivity | exact Hc] | |];
+        * apply (S18.decode_loop_correct azero audio ps fuel); [split; [reflexivity | exact Hc] | |];
             cbn [D18.dpos]; unfold D18.dec_seek; lia.
         * apply Nat.ltb_ge in El.
-          apply (S18.decode_loop_correct azero audio psize fuel); [split; assumption | lia | lia].
+          apply (S18.decode_loop_correct azero audio ps fuel); [split; assumption | lia | lia].
   Qed.
+  Definition q_frame_at_index_ok := q_frame_at_index_any psize land.
 
   (** ** the fractional position: how often the [while fractional_position >= 1.0] loop runs *)
   Fixpoint fcarry (fl : nat) (fp : T) : option (T * nat) :=
@@ -775,7 +776,7 @@ Section Tape.
       change (set_rate A (core_at 0 n0 (param_new (Fixed n1) n1) px) (h_rate sh0)) with (core_at 0 n0 rate0 px).
       cbn [update_n]. rewrite (update_at 0 n0 rate0 px Hrate0). cbn [obind].
       rewrite (update_at 1 n0 rate0 px Hrate0). cbn [obind]. rewrite (update_at 2 n0 rate0 px Hrate0). cbn [obind].
-      cbn [core_at s_stopped]. pose proof flag_3 as Hf3. Show. rewrite Hf3. reflexivity. }
+      cbn [core_at s_stopped]. rewrite flag_3. reflexivity. }
     split.
     { unfold stream_new.
       assert (Hn : match slice with Some (st, e) => sub_chk e st | None => Ok (Z.of_nat (length audio)) end = Ok N).
@@ -785,9 +786,90 @@ Section Tape.
     exists 0%nat, 0%nat, 1%nat, false, n0, (t_pos t0), px, px, sh0,
            {| D18.dpos := D18.dec_seek land (Z.to_nat start); D18.cur := D18.dec_seek land (Z.to_nat start); D18.chunk := None |},
            Running.
-    split; [reflexivity|]. split; [rewrite flag_3; reflexivity|]. split.
+    split; [reflexivity|]. split; [change (0 + 3)%nat with 3%nat; rewrite flag_3; reflexivity|]. split.
     { exists 0%nat. split; [reflexivity|]. split; [rewrite pl_0; reflexivity|]. split; [intros j Hj; lia | left; reflexivity]. }
     split; [apply ProofsShell.mirror_ok_new|]. split; [split; [reflexivity | exact I]|].
     split; [intros _; exact pl_0 | exact Hrate0].
+  Qed.
+
+  (** ** the decoder's packetisation and seek landings are invisible *)
+  Variables psize' land' : nat -> nat.
+  Notation y_step' := (stream_step powf A azero F interp cast ascale V vinterp silence identity amp P pinterp panned fuel
+                                   audio psize' land' cap).
+  Notation y_run' := (run_stream powf A azero F interp cast ascale V vinterp silence identity amp P pinterp panned fuel
+                                 audio psize' land' cap).
+
+  (** two streaming systems over two conforming decoders of the same audio: the same sound state, the schedulers at
+      the same place of the tape, each decoder's bookkeeping consistent with the audio *)
+  Definition PInv (w w' : stream T A V P) : Prop :=
+    w_sound w = w_sound w' /\
+    exists q st dec dec',
+      w_prod w = {| q_status := st; q_dec := dec; q_slice := slice; q_n := N; q_tr := tr_at q |} /\
+      w_prod w' = {| q_status := st; q_dec := dec'; q_slice := slice; q_n := N; q_tr := tr_at q |} /\
+      S18.inv audio dec /\ S18.inv audio dec' /\ (st = Running -> pl q = true).
+
+  Lemma decode_indep : forall w w', PInv w w' ->
+    match decode_step A azero V P fuel audio psize land cap w, decode_step A azero V P fuel audio psize' land' cap w' with
+    | Ok w1, Ok w1' => PInv w1 w1'
+    | _, _ => False
+    end.
+  Proof.
+    intros [pr z] [pr' z'] (Hz & q & st & dec & dec' & Hp & Hp' & Hi & Hi' & Hst).
+    cbn [w_sound w_prod] in *. subst z' pr pr'. unfold decode_step. cbn [w_prod w_sound q_status].
+    destruct st.
+    2:{ split; [reflexivity|]. exists q, Ended, dec, dec'.
+        split; [reflexivity|]. split; [reflexivity|]. split; [exact Hi|]. split; [exact Hi'|]. discriminate. }
+    destruct (h_mirror (z_shell z) =? 6).
+    { split; [reflexivity|]. exists q, Ended, dec, dec'. cbn [w_prod q_with q_dec q_tr q_slice q_n].
+      split; [reflexivity|]. split; [reflexivity|]. split; [exact Hi|]. split; [exact Hi'|]. discriminate. }
+    destruct (cap <=? Z.of_nat (length (y_ring (z_core z)))).
+    { split; [reflexivity|]. exists q, Running, dec, dec'.
+      split; [reflexivity|]. split; [reflexivity|]. split; [exact Hi|]. split; [exact Hi'|]. exact Hst. }
+    specialize (Hst eq_refl). cbn [q_tr].
+    destruct (q_frame_at_index_ok {| q_status := Running; q_dec := dec; q_slice := slice; q_n := N; q_tr := tr_at q |}
+                q eq_refl eq_refl Hi Hst) as (d1 & Hf1 & Hi1).
+    rewrite Hf1.
+    pose proof (q_frame_at_index_any psize' land'
+                  {| q_status := Running; q_dec := dec'; q_slice := slice; q_n := N; q_tr := tr_at q |}
+                  q eq_refl eq_refl Hi' Hst) as Hf2.
+    destruct Hf2 as (d2 & Hf2 & Hi2). rewrite Hf2. cbn [obind q_n q_tr]. rewrite incr_at. cbn [obind].
+    split; [reflexivity|].
+    exists (S q), (if negb (t_playing (tr_at (S q))) then Ended else Running), d1, d2.
+    cbn [w_prod q_with q_slice q_n].
+    split; [reflexivity|]. split; [reflexivity|]. split; [exact Hi1|]. split; [exact Hi2|].
+    fold (pl (S q)). destruct (pl (S q)); [reflexivity | discriminate].
+  Qed.
+
+  Lemma run_indep : forall evs w w', PInv w w' -> y_run w evs = y_run' w' evs.
+  Proof.
+    induction evs as [|e evs IH]; intros w w' HP; [reflexivity|].
+    cbn [run_stream]. destruct e as [|c|len dt i]; cbn [stream_step].
+    - pose proof (decode_indep w w' HP) as Hd.
+      destruct (decode_step A azero V P fuel audio psize land cap w) as [w1| |]; try contradiction.
+      destruct (decode_step A azero V P fuel audio psize' land' cap w') as [w1'| |]; try contradiction.
+      cbn [obind]. rewrite (IH w1 w1' Hd). reflexivity.
+    - destruct HP as (Hz & Hrest). rewrite <- Hz.
+      destruct (stream_on_start A V silence identity P (w_sound w) c) as [z o]. cbn [obind].
+      rewrite (IH {| w_prod := w_prod w; w_sound := z |} {| w_prod := w_prod w'; w_sound := z |}); [reflexivity|].
+      split; [reflexivity | exact Hrest].
+    - destruct HP as (Hz & Hrest). rewrite <- Hz.
+      destruct (stream_process powf A azero F interp cast ascale V vinterp identity amp P pinterp panned fuel (w_sound w) len dt i)
+        as [[[z o] s1]| |]; cbn [obind]; try reflexivity.
+      rewrite (IH {| w_prod := w_prod w; w_sound := z |} {| w_prod := w_prod w'; w_sound := z |}); [reflexivity|].
+      split; [reflexivity | exact Hrest].
+  Qed.
+
+  Lemma init_indep :
+    exists w0 w0',
+      stream_new A azero V silence identity P pcenter audio land sr slice g = Ok w0 /\
+      stream_new A azero V silence identity P pcenter audio land' sr slice g = Ok w0' /\ PInv w0 w0'.
+  Proof.
+    assert (Hn : match slice with Some (st, e) => sub_chk e st | None => Ok (Z.of_nat (length audio)) end = Ok N).
+    { rewrite N_slice. unfold slice_wf in Hslice. destruct slice as [[a b]|]; [|reflexivity]. rewrite sub_chk_ok by lia. reflexivity. }
+    eexists _, _. unfold stream_new. rewrite Hn. cbn [obind]. rewrite <- Hstart_def, <- Hlr_def. fold t0.
+    split; [reflexivity|]. split; [reflexivity|].
+    split; [reflexivity|]. cbn [w_prod].
+    eexists 0%nat, Running, _, _. split; [reflexivity|]. split; [reflexivity|].
+    split; [split; [reflexivity | exact I]|]. split; [split; [reflexivity | exact I]|]. intros _. exact pl_0.
   Qed.
 End Tape.
